@@ -1,5 +1,6 @@
 import VncModel.Cursor.ShapeLemmas
 import VncModel.Cursor.Invariant
+import VncModel.Cursor.BitLaws
 /-!
 # C15 — Cursor handling never damages the framebuffer and shows the right cursor
 
@@ -15,17 +16,25 @@ rfbSendFramebufferUpdate including the `updateFailed` path; rfbSendCursorShape /
 rfbDefaultPtrAddEvent; rfbSetCursor; FramebufferUpdateRequest; the conversions between X and rich
 cursors.  Regions are pixel sets (C11), pixels are opaque values of `bpp` bytes.
 
-**The model is the REPAIRED code** (`Variant.fixed`): the unchanged code violates the property in
-two places (`fixes/C15-cursor-clip.diff`, `fixes/C15-xcursor-colour.diff`); the original behaviour
-is `Variant.orig`, kept executable, and refuted below (`orig_clip_drops_last_column`,
-`orig_xcursor_colour_unscaled`).  Theorems that hold for both are stated for every `v : Variant`.
+**The model is the REPAIRED code** (`Variant.fixed`): the code as received violated the property in
+three places (`fixes/C15-cursor-clip.diff`, `fixes/C15-xcursor-colour.diff`,
+`fixes/C15-setenc-soft-cursor.diff`); the original behaviour is `Variant.orig`, kept executable, and
+refuted below (`orig_clip_drops_last_column`, `orig_xcursor_colour_unscaled`; the SetEncodings
+defect is witnessed by corpus/C15/setenc-soft-cursor.ops).  Theorems that hold for both are stated for every `v : Variant`.
 
 Quantifiers: every screen size, every cursor (any size incl. 0×0 and 1×1, any mask / rich / alpha
 data, any hot-spot, also outside the bitmap), every pointer position (all naturals, so all of
 0..65535, cursor on / partly / wholly off-screen), every history of operations.
 
-Partial (see docs/C15.md): the alpha path is characterised by the model's own `blend` arithmetic;
-the cursor conversions have no theorem beyond well-formedness (sizes).
+Also modelled since round 2: the library's built-in default cursor (T0: tools/consts/c15.py), a
+second SetEncodings that switches the cursor capability, client pixel formats (`Wire`), 24-bit
+server pixels, the "does not fit → empty cursor" rule of rfbSendCursorShape.
+Sections 8 and 9 give the alpha path and the bitmap conversions statements of their own (channel
+formula with the code's rounding, result within the format, dithering threshold; bit order, row
+stride, mask ⊇ source, rich→X→rich).  Still partial (docs/C15.md): premultiplied alpha sources are
+only characterised by `blend` itself; rfbMakeMaskFromAlphaSource has threshold / all-clear /
+all-set laws, not a full specification of the error diffusion; big-endian server formats are not
+modelled.
 -/
 namespace VncModel.Props.C15
 open VncModel.Cursor VncModel.Gen.C15
@@ -202,7 +211,8 @@ theorem moved_pointer_is_sent (s : Sess) (c : Client) (hm : softMoved s c = true
 
 /-- **shape_msg_exact**: the rectangle rfbSendCursorShape emits for an installed cursor `c0`:
 the cursor `c` actually sent has `c0`'s size, hot-spot and mask (conversion only adds the missing
-representation); it is either the "no cursor" rectangle (1×1 with empty mask: all-zero header) or
+representation); it is either the "no cursor" rectangle (all-zero header: for a 1×1 cursor with empty mask, and —
+the rule of f43cbce — for a cursor whose rectangle does not fit `UPDATE_BUF_SIZE`, `shapeFits`) or
 header `x=xhot y=yhot w h encoding` followed by exactly — RichCursor: the `w*h` pixels in row-major
 order, pixel `k` of the payload being `richSource` pixel `k` translated to the client's format
 (`w.tr`, `w.bpp` bytes each; this is what the input row stride `width*bpp1` of the call to
@@ -212,8 +222,9 @@ theorem shape_msg_exact (v : Variant) (s s' : Screen) (w : Wire) (useRich : Bool
     (hc0 : s.cursor = some c0) (hwf : c0.WF) (h : cursorShapeRect v s w useRich = some (s', m)) :
     ∃ c, s'.cursor = some c ∧ c.w = c0.w ∧ c.h = c0.h ∧ c.xhot = c0.xhot ∧ c.yhot = c0.yhot ∧
       c.mask = c0.mask ∧
-      ((isEmptyCursor c = some true ∧ m = rectHeader 0 0 0 0 (if useRich then encRichCursor else encXCursor)) ∨
-       (isEmptyCursor c = some false ∧ ∃ pl,
+      (((isEmptyCursor c = some true ∨ shapeFits w useRich c = false) ∧
+          m = rectHeader 0 0 0 0 (if useRich then encRichCursor else encXCursor)) ∨
+       (isEmptyCursor c = some false ∧ shapeFits w useRich c = true ∧ ∃ pl,
           m = rectHeader c.xhot c.yhot c.w c.h (if useRich then encRichCursor else encXCursor) ++ pl ∧
           (useRich = true → ∃ rich, c.rich = some rich ∧ richOf v s.fmt s.bpp c0 = some rich ∧
               pl = (rich.toList.map w.tr).flatMap (pxBytes w.bpp) ++ c.mask.toList ∧
@@ -232,10 +243,10 @@ theorem shape_msg_exact (v : Variant) (s s' : Screen) (w : Wire) (useRich : Bool
   obtain ⟨g1, g2, g3, g4, g5, _, _, g8, _⟩ := convertFor_geom hconv
   have hcwf := convertFor_wf hwf hconv
   refine ⟨c, rfl, g1, g2, g3, g4, g5, ?_⟩
-  rcases hcase with ⟨he, hm⟩ | ⟨he, _, pl, hpl, hm⟩
+  rcases hcase with ⟨he, hm⟩ | ⟨he, hfit, pl, hpl, hm⟩
   · exact Or.inl ⟨he, hm⟩
   · obtain ⟨p1, p2⟩ := shapePayload_exact hcwf hpl
-    refine Or.inr ⟨he, pl, hm, fun hr => ?_, p2⟩
+    refine Or.inr ⟨he, hfit, pl, hm, fun hr => ?_, p2⟩
     obtain ⟨rich, hrich, hpl', hlen⟩ := p1 hr
     exact ⟨rich, hrich, by rw [← (g8 hr).1]; exact hrich, hpl', hlen⟩
 
@@ -246,11 +257,38 @@ theorem shape_msg_no_cursor (v : Variant) (s : Screen) (w : Wire) (useRich : Boo
   unfold cursorShapeRect
   rw [hc, shapeCore_none]; rfl
 
-/-- **shape_fits**: cursors up to 64×64 at up to 4 bytes per pixel fit `UPDATE_BUF_SIZE`
-(regenerated constant), so the `return FALSE /* FIXME */` path is outside the property's range -/
+/-- **shape_fits**: the rule and its range.  A cursor rectangle is sent in full iff
+`sz_rfbFramebufferUpdateRectHeader + sz_rfbXCursorColors + maskBytes + dataBytes ≤ UPDATE_BUF_SIZE`
+(`shapeFits`; otherwise the empty cursor is sent, `shape_too_big_sends_empty`).  Cursors up to
+64×64 at up to 4 bytes per client pixel — the property's range — always fit, and are assembled
+without the preliminary flush (T0: regenerated `UPDATE_BUF_SIZE` and header sizes). -/
 theorem shape_fits (w : Wire) (useRich : Bool) (c : Cursor) (hw : c.w ≤ 64) (hh : c.h ≤ 64) (hb : w.bpp ≤ 4) :
-    shapeFits w useRich c = true :=
-  shapeFits_of_le hw hh hb
+    shapeFits w useRich c = true ∧ shapeFlushesFirst w useRich c = false :=
+  ⟨shapeFits_of_le hw hh hb, shapeNoFlush_of_le hw hh hb⟩
+
+/-- **shape_too_big_sends_empty**: a cursor that does not fit is announced as the empty cursor —
+the rectangle counted in the update header is always delivered, never half a cursor -/
+theorem shape_too_big_sends_empty (v : Variant) (s s' : Screen) (w : Wire) (useRich : Bool) (m : List UInt8)
+    (c0 : Cursor) (hc0 : s.cursor = some c0) (hwf : c0.WF)
+    (hbig : ∀ c, convertFor v s.fmt s.bpp useRich c0 = some c → shapeFits w useRich c = false)
+    (h : cursorShapeRect v s w useRich = some (s', m)) :
+    m = rectHeader 0 0 0 0 (if useRich then encRichCursor else encXCursor) ∧ m.length = 12 := by
+  unfold cursorShapeRect at h
+  obtain ⟨⟨c', m'⟩, hcore, e⟩ := Option.map_eq_some_iff.mp h
+  simp only [Prod.mk.injEq] at e
+  obtain ⟨rfl, rfl⟩ := e
+  rw [hc0] at hcore
+  obtain ⟨c, _, hconv, hcase⟩ := shapeCore_some hcore
+  rcases hcase with ⟨_, hm⟩ | ⟨_, hfit, _⟩
+  · exact ⟨hm, by rw [hm]; exact rectHeader_length _ _ _ _ _⟩
+  · rw [hbig c hconv] at hfit; simp at hfit
+
+/-- the flush tests of the rectangles emitted with an (almost) empty buffer — rfbSendCursorPos and
+the empty-cursor branch of rfbSendCursorShape — can never fire: `ublen` is at most
+`sz_rfbFramebufferUpdateMsg` there -/
+theorem small_rects_need_no_flush :
+    sz_rfbFramebufferUpdateMsg + sz_rfbFramebufferUpdateRectHeader ≤ UPDATE_BUF_SIZE :=
+  header_always_fits
 
 /-- the rectangle header is 12 bytes; rfbSendCursorPos sends the *screen's* pointer position with
 zero size and the PointerPos pseudo-encoding -/
@@ -329,12 +367,119 @@ screen's in every update, old and new box being resent) this is "the client's pi
 framebuffer with the cursor laid over it, following the pointer when it moves". -/
 theorem history_invariant (s0 : Sess) (hs0 : s0.scr.WF) (hc0 : s0.clients = []) (ops : List Op)
     (s : Sess) (h : runOps Variant.fixed s0 ops = some s) : SessInv Variant.fixed s :=
-  runOps_inv (sessInv_init hs0 hc0) h
+  runOps_inv rfl (sessInv_init hs0 hc0) h
 
 example : ∃ ops : List Op, ops.length = 6 ∧
     (runOps Variant.fixed ⟨witnessScreen, [], none, none⟩ ops).isSome := by
   refine ⟨[.client 0 .raw none, .client 1 .rich (some (⟨31, 63, 31, 11, 5, 0⟩, 2)), .ptr 0 2 0 0, .req 0 true ⟨0, 0, 3, 2⟩, .req 1 false ⟨0, 0, 3, 2⟩, .pump],
     rfl, ?_⟩
   decide +kernel
+
+/-! ## 8. the alpha path: independent statement -/
+
+/-- **alpha_blend_spec**: for every packed true-colour server format (red in the low `kr` bits,
+green in the next `kg`, blue in the next `kb`, all inside the pixel — the formats rfbInitServerFormat
+produces: 3/3/2, 5/5/5, 8/8/8) and a non-premultiplied alpha cursor, the pixel the blending loop of
+rfbShowCursor stores has in every channel `a*src/255 + (255-a)*dst/255` (the code's two truncating
+divisions), every channel within its maximum, and no bit outside the format's bits. -/
+theorem alpha_blend_spec (f : Format) (kr kg kb bpp : Nat) (hp : f.Packed kr kg kb)
+    (hbits : kr + kg + kb ≤ 8 * bpp) (hbpp : bpp ≤ 4) (d s a : Nat) (ha : a ≤ 255) :
+    let out := blend f bpp false d s a
+    chanOf f.redMax f.redShift out = blendChan a (chanOf f.redMax f.redShift s) (chanOf f.redMax f.redShift d) ∧
+    chanOf f.greenMax f.greenShift out = blendChan a (chanOf f.greenMax f.greenShift s) (chanOf f.greenMax f.greenShift d) ∧
+    chanOf f.blueMax f.blueShift out = blendChan a (chanOf f.blueMax f.blueShift s) (chanOf f.blueMax f.blueShift d) ∧
+    chanOf f.redMax f.redShift out ≤ f.redMax ∧ chanOf f.greenMax f.greenShift out ≤ f.greenMax ∧
+    chanOf f.blueMax f.blueShift out ≤ f.blueMax ∧ out < 2 ^ (kr + kg + kb) :=
+  blend_spec hp hbits hbpp d s a ha
+
+/-- how the painted pixel of an alpha cursor comes about (`painted_eq_overlay` + this + the
+blend law): alpha 0 leaves the framebuffer pixel, any other alpha stores `blend` of the framebuffer
+pixel and the cursor pixel; the mask bits play no role -/
+theorem alpha_pixel_rule (f : Format) (bpp : Nat) (c : Cursor) (rich : Array Px) (al : Array UInt8)
+    (u v : Nat) (old : Px) (a : UInt8) (sv : Px) (hal : c.alpha = some al)
+    (ha : al[v * c.w + u]? = some a) (hs : rich[v * c.w + u]? = some sv) :
+    cursorPixel f bpp c rich u v old =
+      some (if a.toNat = 0 then old else blend f bpp c.premult old sv a.toNat) := by
+  unfold cursorPixel
+  simp only [hal, ha, hs, Option.bind_some, Option.map_some]
+  split <;> rfl
+
+/-- **alpha_mask_threshold / clear / full**: the mask rfbMakeMaskFromAlphaSource dithers from the
+alpha source: its first pixel is set exactly when alpha ≥ 0x80 (the threshold; no later step
+touches it); a fully transparent source gives the empty mask, a fully opaque one the full mask -/
+theorem alpha_mask_threshold (width height : Nat) (alpha mask : Array UInt8) (hw : 0 < width) (hh : 0 < height)
+    (h : makeMaskFromAlpha width height alpha = some mask) :
+    ∃ a0, alpha[0]? = some a0 ∧ maskBit mask width 0 0 = some (decide (a0.toNat ≥ 0x80)) :=
+  alpha_threshold hw hh h
+
+theorem alpha_mask_transparent (width height : Nat) (alpha mask : Array UInt8)
+    (hall : ∀ t, t < width * height → alpha[t]? = some 0)
+    (h : makeMaskFromAlpha width height alpha = some mask) :
+    mask = Array.replicate (rowBytes width * height) 0 :=
+  alpha_mask_clear hall h
+
+theorem alpha_mask_opaque (width height : Nat) (alpha mask : Array UInt8)
+    (hall : ∀ t, t < width * height → alpha[t]? = some 255)
+    (h : makeMaskFromAlpha width height alpha = some mask) (u v : Nat) (hu : u < width) (hv : v < height) :
+    maskBit mask width u v = some true :=
+  alpha_mask_full hall h hu hv
+
+/-! ## 9. bitmap laws of the cursor conversions -/
+
+/-- **xcursor_colour_scaled** (231917e): in a packed server format the pixel standing for a 16-bit
+X-cursor colour has every channel scaled to the channel maximum, `max*c/0xffff`, nothing outside -/
+theorem xcursor_colour_scaled (f : Format) (kr kg kb bpp : Nat) (hp : f.Packed kr kg kb)
+    (hbits : kr + kg + kb ≤ 8 * bpp) (hbpp : bpp ≤ 4) (r g b : Nat) (hr : r ≤ 0xffff) (hg : g ≤ 0xffff) (hb : b ≤ 0xffff) :
+    let p := xColour Variant.fixed f bpp r g b
+    chanOf f.redMax f.redShift p = f.redMax * r / 0xffff ∧
+    chanOf f.greenMax f.greenShift p = f.greenMax * g / 0xffff ∧
+    chanOf f.blueMax f.blueShift p = f.blueMax * b / 0xffff ∧ p < 2 ^ (kr + kg + kb) :=
+  xcolour_spec hp hbits hbpp hr hg hb
+
+/-- **make_rich_from_x_law**: rfbMakeRichCursorFromXCursor — pixel `(u,v)` is the foreground colour
+where the source bit (row stride `(w+7)/8`, MSB first) is set, the background colour elsewhere -/
+theorem make_rich_from_x_law (v : Variant) (f : Format) (bpp : Nat) (c : Cursor) (src : Array UInt8)
+    (rich : Array Px) (hsrc : c.source = some src) (h : makeRichPixels v f bpp c = some rich)
+    (u w : Nat) (hu : u < c.w) (hw : w < c.h) :
+    ∃ bit, maskBit src c.w u w = some bit ∧
+      rich[w * c.w + u]? = some (if bit then xColour v f bpp c.foreR c.foreG c.foreB
+                                  else xColour v f bpp c.backR c.backG c.backB) :=
+  make_rich_law hsrc h hu hw
+
+/-- **make_xcursor_bits_law**: rfbMakeXCursor — the bitmap has the string's bit at every cursor
+pixel and zero in every padding position (bit order MSB first, row stride `(w+7)/8`) -/
+theorem make_xcursor_bits_law (width height : Nat) (bits : Array UInt8) (hsz : bits.size = rowBytes width * height)
+    (u v : Nat) (hv : v < height) (hu : u < rowBytes width * 8) :
+    maskBit (clearPadding width height bits) width u v =
+      (maskBit bits width u v).map fun b => b && decide (u < width) :=
+  make_xcursor_bits hsz hv hu
+
+/-- **mask_for_xcursor_covers_source**: the mask rfbMakeMaskForXCursor derives contains the source -/
+theorem mask_for_xcursor_covers_source (width height : Nat) (src mask : Array UInt8)
+    (h : makeMaskForXCursor width height src = some mask) (u v : Nat) (hu : u < width) (hv : v < height)
+    (hbit : maskBit src width u v = some true) : maskBit mask width u v = some true :=
+  mask_covers_source h hu hv hbit
+
+/-- **x_from_rich_bits_law**: rfbMakeXCursorFromRichCursor — bit `(u,v)` of the new bitmap is set
+exactly when rich pixel `(u,v)` differs from the (scaled) background colour / in the all-zero-colours
+mode when its grey level is ≥ 128 -/
+theorem x_from_rich_bits_law (f : Format) (bpp : Nat) (c c' : Cursor) (rich : Array Px)
+    (hr : c.rich = some rich) (h : makeXFromRich f bpp c = some c') :
+    ∃ src, c'.source = some src ∧ src.size = rowBytes c.w * c.h ∧
+      ∀ u, u < c.w → ∀ v, v < c.h → maskBit src c.w u v = some (xSetAt f bpp c rich v u) :=
+  x_from_rich_bits hr h
+
+/-- **rich_x_rich_roundtrip**: rich → X → rich is the identity on two-colour cursors (every pixel
+the scaled foreground or background colour, the two different, colours not all zero) -/
+theorem rich_x_rich_roundtrip (f : Format) (bpp : Nat) (c c' : Cursor) (rich rich' : Array Px)
+    (hr : c.rich = some rich) (hsz : rich.size = c.w * c.h) (hni : xInterp bpp c = false)
+    (hne : xColour Variant.fixed f bpp c.foreR c.foreG c.foreB ≠ xColour Variant.fixed f bpp c.backR c.backG c.backB)
+    (h2 : ∀ t, t < c.w * c.h → rich[t]? = some (xColour Variant.fixed f bpp c.foreR c.foreG c.foreB) ∨
+                                 rich[t]? = some (xColour Variant.fixed f bpp c.backR c.backG c.backB))
+    (hx : makeXFromRich f bpp c = some c')
+    (hback : makeRichPixels Variant.fixed f bpp { c' with rich := none } = some rich') : rich' = rich :=
+  rich_x_rich hr hsz hni hne h2 hx hback
+
+example : (⟨255, 255, 255, 0, 8, 16⟩ : Format).Packed 8 8 8 ∧ 8 + 8 + 8 ≤ 8 * 3 := ⟨⟨rfl, rfl, rfl, rfl, rfl, rfl⟩, by decide⟩
 
 end VncModel.Props.C15
